@@ -4,7 +4,9 @@ package checks
 // can silently truncate where int is 32 bits (shifts of a "uint" accumulator, lengths multiplied before widening). The
 // enumerations of a property do not depend on the word size, so the same check is run once more in a binary built for
 // GOARCH=386 (build/vcheck-386, quick tier) and its violations are reported under <id>/386/...
-// Checks whose harness itself assumes 64 lanes per word (C06, C11, C12, C13, C20) are not run this way.
+// The PoW lane tests (C11, C12) count lanes with bits.UintSize and run the same way (their scheduler parts do not); C06 and
+// C20, whose harnesses are written for 64 lanes, run the word-size generic comparison C20w (curlw.go) instead, also in a
+// GOAMD64=v3 build (build/vcheck-v3), where build constraints may select other assembly.
 
 import (
 	"bytes"
@@ -21,56 +23,70 @@ import (
 	"verifharness/core"
 )
 
-var arch386Quick = map[string]bool{"C04": true, "C05": true, "C10": true, "C14": true, "C15": true, "C16": true, "C19": true}
+var arch386Quick = map[string]bool{"C04": true, "C05": true, "C10": true, "C11": true, "C12": true, "C14": true, "C15": true, "C16": true, "C19": true}
 
 var arch386KeyRe = regexp.MustCompile(`(?m)^  key=(\S+) cases=(\d+): (.*)$`)
 
+// arch386Pass re-runs the check itself in the GOARCH=386 build.
 func arch386Pass(c *core.Ctx, id string) {
-	if os.Getenv("VERIF_386") != "" || runtime.GOARCH != "amd64" {
-		return
-	}
 	if !c.Thorough() && !arch386Quick[id] {
 		c.Set("arch386_pass", "thorough tier only for this property")
 		return
 	}
-	bin := filepath.Join(core.VerifDir, "build", "vcheck-386")
-	if _, err := os.Stat(bin); err != nil {
-		c.Set("arch386_pass", "build/vcheck-386 not found: skipped")
+	archPass(c, id, id, "vcheck-386", "386", "in a build for GOARCH=386 (32-bit int and uint): ")
+}
+
+// curlVariantPasses runs the word-size generic curl comparison (C20w) in the 386 build (portable code, 32 lanes) and in
+// the GOAMD64=v3 build (where a build constraint may select other assembly); used by C06 and C20.
+func curlVariantPasses(c *core.Ctx, id string) {
+	archPass(c, id, "C20w", "vcheck-386", "386", "in a build for GOARCH=386 (portable permutation, 32 lanes): ")
+	archPass(c, id, "C20w", "vcheck-v3", "amd64v3", "in a build with GOAMD64=v3: ")
+}
+
+// archPass runs check childID (quick tier) in build/<binName> and reports its violations as <id>/<label>/...
+func archPass(c *core.Ctx, id, childID, binName, label, what string) {
+	if os.Getenv("VERIF_386") != "" || runtime.GOARCH != "amd64" {
 		return
 	}
-	tmp, _ := os.MkdirTemp("", "arch386")
+	note := "arch_" + label + "_pass"
+	bin := filepath.Join(core.VerifDir, "build", binName)
+	if _, err := os.Stat(bin); err != nil {
+		c.Set(note, "build/"+binName+" not found: skipped")
+		return
+	}
+	tmp, _ := os.MkdirTemp("", "archpass")
 	defer os.RemoveAll(tmp)
-	ctx, cancel := context.WithTimeout(context.Background(), 20*time.Minute)
+	ctx, cancel := context.WithTimeout(context.Background(), 30*time.Minute)
 	defer cancel()
-	cmd := exec.CommandContext(ctx, bin, id, "quick")
+	cmd := exec.CommandContext(ctx, bin, childID, "quick")
 	cmd.Env = append(os.Environ(), "VERIF_DIR="+tmp, "VERIF_CHILD=1", "VERIF_386=1")
 	var out, errb bytes.Buffer
 	cmd.Stdout, cmd.Stderr = &out, &errb
 	err := cmd.Run()
-	sum := regexp.MustCompile(`(?m)^` + id + ` quick: evaluations=(\d+) nontrivial=(\d+) violations=(\d+)`).FindStringSubmatch(out.String())
+	sum := regexp.MustCompile(`(?m)^` + childID + ` quick: evaluations=(\d+) nontrivial=(\d+) violations=(\d+)`).FindStringSubmatch(out.String())
 	for _, m := range arch386KeyRe.FindAllStringSubmatch(out.String(), -1) {
-		key := id + "/386" + strings.TrimPrefix(m[1], id)
+		key := id + "/" + label + strings.TrimPrefix(m[1], childID)
 		var cas interface{}
 		safe := regexp.MustCompile(`[^A-Za-z0-9_.=-]+`).ReplaceAllString(m[1], "_")
 		if len(safe) > 100 {
 			safe = safe[:100]
 		}
 		if b, e := os.ReadFile(filepath.Join(tmp, "replays", safe+".json")); e == nil {
-			cas = map[string]interface{}{"GOARCH": "386", "replay_of_32bit_run": string(b)}
+			cas = map[string]interface{}{"build": label, "replay_of_that_run": string(b)}
 		}
-		c.Violate(key, "in a build for GOARCH=386 (32-bit int and uint): "+m[3], cas, "", nil)
+		c.Violate(key, what+m[3], cas, "", nil)
 	}
 	switch {
 	case sum != nil:
-		c.Set("arch386_evaluations", sum[1])
+		c.Set("arch_"+label+"_evaluations", sum[1])
 		var n int64
 		fmt.Sscan(sum[1], &n)
 		c.Eval(n)
 	case strings.Contains(out.String(), "ABORT property="):
-		c.Set("arch386_pass", "the 32-bit run aborted (machinery): "+tail(out.String(), 300))
+		c.Set(note, "the run in that build aborted (machinery): "+tail(out.String(), 300))
 	case strings.Contains(errb.String(), "iota-crypto-demo/pkg/"):
-		c.Violate(id+"/386/crash", "in a build for GOARCH=386 the check died inside repository code: "+tail(errb.String(), 1500), nil, "", nil)
+		c.Violate(id+"/"+label+"/crash", what+"the check died inside repository code: "+tail(errb.String(), 1500), nil, "", nil)
 	default:
-		c.Set("arch386_pass", fmt.Sprintf("no result (%v): %s", err, tail(errb.String(), 300)))
+		c.Set(note, fmt.Sprintf("no result (%v): %s", err, tail(errb.String(), 300)))
 	}
 }
